@@ -135,7 +135,7 @@ def side_case(seed):
 def run(ctx):
     quick = ctx.tier == 'quick'
     lib.stage_proof(ctx, PROP_FILES, ['Check/C04.vo', 'Check/C03.vo'])
-    n = 150 if quick else 2000
+    n = 150 if quick else 4000
     cases, metas = [], []
     for k in range(n):
         for gen, name in ((gen_of_full_int, 'of_full'), (gen_tsvd_int, 'truncated_svd')):
@@ -173,7 +173,7 @@ def run(ctx):
         cases.append(lit)
         metas.append({'desc': {'gen': 'gen_sweep_case', 'case_seed': cs}, 'tags': {'op': 'sweep-' + case['which']}})
     bad += lib.stage_correspondence(ctx, 'sweeps', ['SkTT.Check.C03'], 'check_C03', cases, metas, show_fn='run_C03')
-    n_side = 300 if quick else 6000
+    n_side = 300 if quick else 18000
     if bad:
         n_side *= 5
     for k in range(n_side):
